@@ -36,6 +36,10 @@ type Config struct {
 	// that shape are not executed any more; they are counted (Counters) and reported by the
 	// driver as lost coverage. No observation is ever invented for them.
 	HangBudget int64
+	// ReadEachStep: Len() and Bytes() of every live blob are read after construction and after every call, as a
+	// user who looks at the blobs between calls would (idbblob keeps a Go-side copy of the bytes from the first
+	// Bytes() on; without this variant a rebuilt history reads only at its end, so the copy exists for one call).
+	ReadEachStep bool
 }
 
 // Adapter implements engine.Adapter.
@@ -106,7 +110,25 @@ func (a *Adapter) New(init *tla.Value) (engine.Instance, error) {
 	}
 	in.slots[1] = a.Cfg.MkRoot(append([]byte{}, data...))
 	in.root[1] = 1
+	in.readAll()
 	return in, nil
+}
+
+// readAll is the ReadEachStep variant's look at the blobs; what it reads is not compared here (CheckState does that).
+func (in *Inst) readAll() {
+	if !in.ad.Cfg.ReadEachStep || in.abandoned {
+		return
+	}
+	if msg, hung := in.guard(func() {
+		for _, b := range in.slots {
+			if b != nil {
+				_ = b.Len()
+				_ = b.Bytes()
+			}
+		}
+	}); hung || msg != "" {
+		in.dirty, in.abandoned = true, true
+	}
 }
 
 // Inst is one family of live blobs.
@@ -343,6 +365,7 @@ func (in *Inst) Apply(call *tla.Value) any {
 			res.Slot = f
 		}
 	}
+	in.readAll()
 	return *res
 }
 
